@@ -112,6 +112,19 @@ def make(cls, max_iter, seed, variant):
         Ar = np.real(A)
         Aop = linop.MatMul([n, 1], Ar)
         Ls = [np.eye(n)]
+        if variant % 3 == 1:
+            # two explicit constraints: a tight ball on x that keeps moving for many updates, listed FIRST, and a slack constraint
+            # on a coordinate the data keep at exactly zero (converged from the first update), listed LAST
+            Aop = linop.MatMul([n, 1], np.diag(np.arange(1.0, n + 1)))
+            d = np.ones((n, 1))
+            d[-1] = 0
+            sel = np.zeros((1, n))
+            sel[0, -1] = 1
+            a = alg.SDMM(Aop, d, 0.1, [np.eye(n), sel], [0.01, 1.0], 1.0, [1.0, 1.0], 1.0, 1.0, eps_pri=0, eps_dual=0, max_cg_iter=5, max_iter=max_iter)
+            return a, lambda: [a.x] + list(a.z) + list(a.u), False
+        if variant % 3 == 2:
+            a = alg.SDMM(Aop, np.real(y).reshape(n, 1), 0.1, Ls, [0.5], 1.0, [1.0], 1.0, 1.0, eps_pri=0, eps_dual=0, c_max=0.3, c_norm=1.0, max_cg_iter=3, max_iter=max_iter)
+            return a, lambda: [a.x], False
         a = alg.SDMM(Aop, np.real(y).reshape(n, 1), 0.1, Ls, [100.0], 1.0, [1.0], 1, 1, eps_pri=0, eps_dual=0, max_cg_iter=3, max_iter=max_iter)
         return a, lambda: [a.x], False
     if cls == "NewtonsMethod":
